@@ -468,3 +468,55 @@ M('r16-rows-keyed-by-payer', ['C16'], Y22 + 'f1040_sb.py',
   'R16.1', 'Schedule B rows built from a mapping keyed by payer name: two copies with one payer collapse (seed C16-I)')
 M('k24e-c04-del-needed-by', ['C04'], CLI, "def prompt_input(missing, needed_by):\n", "def prompt_input(missing, needed_by):\n    del needed_by[25:]\n", 'K24e',
   'the prompt shortens the list of waiting lines it was handed - the tracker\'s own list (seed C04-I)')
+
+
+# ------------------------------------------------------------------ round 6 of the seeded changes
+M('r17-module-level-input', ['C17', 'C05', 'C01'], Y23 + 'f1098.py', "            StringInput('box_8', description=\"Address or description of property securing mortgage\"),", "            _BOX8,", 'R17.7',
+  'one input object of Form 1098 is created once at module level and shared by every copy (seeds C01-L, C17-L)',
+  more=[(Y23 + 'f1098.py', "class Form1098(InputForm):", "_BOX8 = StringInput('box_8', description=\"Address or description of property securing mortgage\")\n\nclass Form1098(InputForm):")])
+M('k7-store-rounds', ['C03', 'C12'], VA, "    def __setitem__(self, key, value):\n        self.values[key] = value\n",
+  "    def __setitem__(self, key, value):\n        if isinstance(value, float):\n            value = round(value, 2)\n        self.values[key] = value\n", 'K7',
+  'the value store rounds floats to cents behind the field\'s back: lines with 3 or 5 places are cut (seed C03-K)')
+M('k7-store-asserts-key', ['C03', 'C12'], VA, "    def __setitem__(self, key, value):\n        self.values[key] = value\n",
+  "    def __setitem__(self, key, value):\n        assert isinstance(key, str)\n        self.values[key] = value\n", None, 'an assertion on the key; the value is stored as given', expect='silent')
+M('k12-evaluate-on-the-spot', ['C04', 'C06'], S, "                self._add_unattempted(self._field_map[ud.dependency])\n", "                self._attempt_field(self._field_map[ud.dependency])\n", 'K12',
+  'the needed line is evaluated from inside the handler instead of queued (seed C06-L)')
+M('r8-line-type-changed-under-reader', ['C08'], Y23 + 'f8889.py', "BooleanField('1', lambda s, i, v: i['hdhp_plan_family']),", "StringField('1', lambda s, i, v: 'family' if i['hdhp_plan_family'] else 'self-only'),", 'R8',
+  'line 1 becomes a text line; the limit helper still tests it for truth, so the self-only limit is never applied (seed C08-K)')
+M('k11i-lenient-decoding', ['C11', 'C13', 'C14', 'C20'], IN, "            with open(input_config) as config_file:", "            with open(input_config, encoding='utf-8', errors='ignore') as config_file:", 'K11i',
+  'undecodable bytes are dropped before validation (seed C11-K)')
+M('k11i-explicit-utf8', ['C11', 'C13', 'C14', 'C20'], IN, "            with open(input_config) as config_file:", "            with open(input_config, encoding='utf-8') as config_file:", None,
+  'an explicit encoding, decoded strictly', expect='silent')
+M('r17-description-in-allow-empty', ['C17', 'C11'], Y22 + 'f1099_r.py', "EnumInput('belongs_to', enum.taxpayer_or_spouse, description=\"To whom was this distribution paid?\"),",
+  "EnumInput('belongs_to', enum.taxpayer_or_spouse, \"To whom was this distribution paid?\"),", 'R17.8', 'the description lands in allow_empty: blank answers become valid (seed C11-L)')
+M('k34-fromkeys-shared-list', ['C01', 'C13'], S, "        unmet_dependencies = {}\n        for dep in dependency_tracker.unmet_dependencies():\n            dependents = [f.name() for f in dependency_tracker.unmet_dependents(dep)]\n            unmet_dependencies[dep] = dependents\n",
+  "        unmet_dependencies = dict.fromkeys(dependency_tracker.unmet_dependencies(), [])\n        for dep in unmet_dependencies:\n            unmet_dependencies[dep] += [f.name() for f in dependency_tracker.unmet_dependents(dep)]\n", 'K34',
+  'one list shared by all keys of the failure report (seed C13-K)')
+M('k34-fromkeys-then-replace', ['C01', 'C13'], S, "        unmet_dependencies = {}\n        for dep in dependency_tracker.unmet_dependencies():\n",
+  "        unmet_dependencies = dict.fromkeys(dependency_tracker.unmet_dependencies(), [])\n        for dep in list(unmet_dependencies):\n", None,
+  'keys created first, every entry then replaced by its own list', expect='silent')
+M('k18b-temp-file-elsewhere', ['C20', 'C13'], IN, "        with open(filename, 'w') as outfile:\n            self.config.write(outfile)\n",
+  "        import tempfile, os\n        with tempfile.NamedTemporaryFile('w', delete=False) as outfile:\n            self.config.write(outfile)\n        os.replace(outfile.name, filename)\n", 'K18b',
+  'atomic write through the system temp directory: the rename fails across file systems (seed C13-L)')
+M('k18b-temp-file-alongside', ['C20', 'C13'], IN, "        with open(filename, 'w') as outfile:\n            self.config.write(outfile)\n",
+  "        import tempfile, os\n        with tempfile.NamedTemporaryFile('w', delete=False, dir=os.path.dirname(os.path.abspath(filename))) as outfile:\n            self.config.write(outfile)\n        os.replace(outfile.name, filename)\n", None,
+  'atomic write through a temporary file next to the target', expect='silent')
+M('k22g-skip-forms-without-template', ['C14'], PF, "        form = self._form_map[form_name](instance=form_instance)\n        self.forms.append(form)\n",
+  "        form = self._form_map[form_name](instance=form_instance)\n        if not form.pdf_file():\n            return\n        self.forms.append(form)\n", 'K22g',
+  'sections of forms without a template are not read back (seed C14-K)')
+M('k23b-cat-sorted-by-name', ['C19'], PF, "            cmd.extend(pdfs)\n", "            cmd.extend(sorted(set(pdfs)))\n", 'K23b', 'the filled forms are concatenated in file-name order (seed C19-L)')
+M('k23b-cat-list-copy', ['C19'], PF, "            cmd.extend(pdfs)\n", "            cmd.extend(list(pdfs))\n", None, 'a copy of the list in the same order', expect='silent')
+M('k19-finally-reads-verdict', ['C20'], CLI, "        if args.writeback_input:\n            input_store.write(args.input_file)\n",
+  "        if args.writeback_input:\n            print('complete' if successful else 'partial')\n            input_store.write(args.input_file)\n", 'K19',
+  'the finally block reads the verdict, unbound when solve() raised, before writing back (seed C20-L)')
+M('k19-finally-message-after-write', ['C20'], CLI, "        if args.writeback_input:\n            input_store.write(args.input_file)\n",
+  "        if args.writeback_input:\n            input_store.write(args.input_file)\n            print(f'input written back to {args.input_file}')\n", None,
+  'a message after the write, using nothing bound in the try', expect='silent')
+M('k22f-keep-old-sections', ['C04', 'C14'], CLI, "    # Attach tax year to solution\n", "    if args.solution and Path(args.solution).is_file():\n        previous = configparser.ConfigParser(interpolation=None)\n        previous.read(args.solution)\n        for section in previous.sections():\n            if section not in solution:\n                solution[section] = dict(previous[section])\n    # Attach tax year to solution\n",
+  'K22f', 'sections of an earlier solution file are carried over into the new one (seed C04-K)')
+M('r16-first-copy-returns', ['C16'], Y21 + 'f1040.py', "            for n in range(i['number_w-2']):\n                if v[f'w-2:{n}.box_5'] > 200000:\n                    return True\n            statuses = enum.filing_status_2021\n",
+  "            for n in range(i['number_w-2']):\n                if v[f'w-2:{n}.box_5'] > 200000:\n                    return True\n                return False\n            statuses = enum.filing_status_2021\n", 'R16.1',
+  'the loop over the W-2s returns in its first round: only copy 0 decides (seed C16-K)')
+M('k23f-module-level-form-cache', ['C19', 'C14'], PF, "        form = self._form_map[form_name](instance=form_instance)\n",
+  "        form = _FORMS.setdefault(full_form_name, self._form_map[form_name](instance=form_instance))\n", 'K2', 'form objects cached at module level, keyed without the tax year (seed C19-K)',
+  more=[(PF, "class PDFFiller(object):", "_FORMS = {}\n\nclass PDFFiller(object):")])
